@@ -7,6 +7,9 @@ use nuts_rs::{CpuLogpFunc, CpuMathError, HasDims, LogpError};
 use serde::{Deserialize, Serialize};
 use serde_json::{Value as J, json};
 
+/// number of unrecoverable faults announced so far in this process (script op `wait_fatal`)
+pub static FATAL_FIRED: std::sync::atomic::AtomicU64 = std::sync::atomic::AtomicU64::new(0);
+
 #[derive(Debug, Clone, Serialize, Deserialize, PartialEq)]
 #[serde(tag = "kind")]
 pub enum Kind {
@@ -79,11 +82,14 @@ pub struct TestLogp {
     pub delay_us: u64,
     /// announce an unrecoverable fault in the "sampler" event stream as chain `announce` (C13)
     pub announce: Option<i64>,
+    /// after announcing an unrecoverable fault, keep the failing evaluation in flight this long (C13: a failure that
+    /// overlaps an abort)
+    pub fatal_sleep_ms: u64,
 }
 
 impl TestLogp {
     pub fn new(kind: Kind, dim: usize) -> Self {
-        TestLogp { kind, dim, evals: 0, faults: HashMap::new(), log_evals: false, delay_us: 0, announce: None }
+        TestLogp { kind, dim, evals: 0, faults: HashMap::new(), log_evals: false, delay_us: 0, announce: None, fatal_sleep_ms: 0 }
     }
 
     pub fn eval(&self, x: &[f64], g: &mut [f64]) -> f64 {
@@ -219,6 +225,10 @@ impl CpuLogpFunc for TestLogp {
         if let (Some(chain), Err(e)) = (self.announce, &res) {
             if !e.recoverable {
                 nuts_rs::verif::emit("sampler", || json!({"ev": "fatal_fired", "i": chain, "k": k}));
+                FATAL_FIRED.fetch_add(1, std::sync::atomic::Ordering::SeqCst);
+                if self.fatal_sleep_ms > 0 {
+                    std::thread::sleep(std::time::Duration::from_millis(self.fatal_sleep_ms));
+                }
             }
         }
         if self.log_evals {
